@@ -60,6 +60,7 @@ def run_job(args):
 
 
 def body(c):
+    c.spec_cases_replayed = True
     import joblib
     model(c)
     rng = random.Random(c.seed)
